@@ -252,12 +252,12 @@ func (r *lalrRef) conflict(a *refAuto) (bool, string) {
 				prec := -1
 				for p := range c.shiftProds {
 					sp := r.g.Prods[p]
-					if sp.Rule != rp.Rule || sp.Precedence <= 0 || (prec >= 0 && sp.Precedence != prec) {
+					if sp.Rule != rp.Rule || int(sp.Precedence) <= 0 || (prec >= 0 && int(sp.Precedence) != prec) {
 						resolvable = false
 					}
-					prec = sp.Precedence
+					prec = int(sp.Precedence)
 				}
-				if rp.Precedence <= 0 {
+				if int(rp.Precedence) <= 0 {
 					resolvable = false
 				}
 			}
